@@ -21,3 +21,11 @@ MUTANTS = {
         ("deploy-first-depth", "annet/rulebook/deploying.py", "                    if depth == len(cmd_path) - 1:\n                        return rule", "                    if True:\n                        return rule"),
     ],
 }
+
+MUTANTS["C18"] = [
+    ("least-specific-wins", "annet/vendors/registry.py", "key=itemgetter(1), reverse=True", "key=itemgetter(1), reverse=False"),
+    ("optixtrans-bare-match", "annet/vendors/library/optixtrans.py", 'return ["Huawei.OptiXtrans"]', 'return ["OptiXtrans"]'),
+    ("typo-logic-in-NE-branch", "annet/rulebook/texts/huawei.rul", "%if not hw.Huawei.NE:", "%if not hw.Huawei.NE:\nfoo bar * %logic=huawei.misc.no_such_function"),
+    ("bad-regex-in-quidway-branch", "annet/rulebook/texts/huawei.rul", "    %if hw.Quidway:", "    %if hw.Quidway:\n    foo */(Vlanif[0-9+/"),
+    ("find-true-seq-no-recursion-guard", "annet/annlib/netdev/db.py", "            sequences.update(find_true_sequences(hw_model, meta[\"children\"]))", "        sequences.update(find_true_sequences(hw_model, meta[\"children\"]))"),
+]
